@@ -90,11 +90,11 @@ func init() {
 	// call a member: {"v": receiver, "m": name, "args": [values], "ret": spec type or null} on both libraries
 	ops["member"] = func(raw json.RawMessage) (any, error) {
 		var r struct {
-			V    SV   `json:"v"`
+			V    SV     `json:"v"`
 			M    string `json:"m"`
-			Args []SV `json:"args"`
-			Ret  *ST  `json:"ret"`
-			Idx  bool `json:"idx"` // index the receiver with args[0] instead of calling a member
+			Args []SV   `json:"args"`
+			Ret  *ST    `json:"ret"`
+			Idx  bool   `json:"idx"` // index the receiver with args[0] instead of calling a member
 		}
 		if err := json.Unmarshal(raw, &r); err != nil {
 			return nil, err
